@@ -452,6 +452,10 @@ func (e *bigEnv) plain(v ssa.Value, at ssa.Instruction) *X {
 		}
 	case *ssa.ChangeType:
 		return e.plain(x.X, at)
+	case *ssa.MakeInterface:
+		return e.plain(x.X, at)
+	case *ssa.ChangeInterface:
+		return e.plain(x.X, at)
 	}
 	if isBigIntPtr(v.Type()) && at != nil {
 		return e.valueAt(v, at)
